@@ -112,6 +112,19 @@ def run_case(case, rec):
             rec.event('triple.compared')
             collide = _collides(u, sel_names, outsiders)
             q2 = _searches(w, forms, visit, rec)
+            # ILIs that only outsiders carry are not obtainable through the restricted Wordnet
+            mine = {i[0] for i in raw2['ilis'] if i and i[0]}
+            for ss in (x for n in outsiders for x in u[n].get('synsets', [])):
+                iid = ss.get('ili')
+                if iid and iid != 'in' and iid not in mine:
+                    rec.event('foreign-ili.looked-up')
+                    try:
+                        got = w.ili(iid)
+                    except wn.Error:
+                        continue
+                    if got is not None:
+                        rec.violation('outside-selection', f'S={S}: ili({iid!r}) returns {got!r} although no synset of the selection carries that ILI')
+                        break
             dq = diff(q1, q2)
             if dq:
                 rec.violation('search-interference', f'S={S} expand={exp_arg}: looking up a form gives a different result after outsiders '
